@@ -153,9 +153,16 @@ class _Env:
         self.ex, self.uni = ex, uni
         self.mod = uni.load(LS + modname)
         self.gauss, self.lorentz = [], []
-        self.mod.add_gaussian_line = lambda rad, wl, sig, spec: (self.gauss.append((rad, wl, sig)), spec)[1]
+        # recording kernels keep the kernels' own contract: a line without width adds nothing (radiance recorded as 0)
+        def _rec_g(rad, wl, sig, spec):
+            self.gauss.append((ex.ite(sig > 0, rad, 0.0) if ex.sym else (rad if sig > 0 else 0.0), wl, sig))
+            return spec
+        self.mod.add_gaussian_line = _rec_g
         if hasattr(self.mod, 'add_lorentzian_line') or modname == 'stark':
-            self.mod.add_lorentzian_line = lambda rad, wl, w, spec, integ: (self.lorentz.append((rad, wl, w)), spec)[1]
+            def _rec_l(rad, wl, w, spec, integ):
+                self.lorentz.append((ex.ite(w > 0, rad, 0.0) if ex.sym else (rad if w > 0 else 0.0), wl, w))
+                return spec
+            self.mod.add_lorentzian_line = _rec_l
         self.species = W.Species(ex, EL, 1)
         if field == 'zero':
             bvec = rs_model.Vector3D(0.0, 0.0, 0.0)
